@@ -60,6 +60,7 @@ func init() {
 func c17(r *Report, s *Sem) {
 	p := r.P
 	a := s.anchors()
+	defer r.Import(s, "C12", "R4", "R8", "what one session failed to send cannot surface in another: the JSON encoder of a TCP transport writes straight to that transport's connection wrapper — no buffer shared between transports (a pooled buffer that keeps the bytes of a failed write prefixes them to the next session's envelope)", 8)
 	defer r.Import(s, "C07", "R1", "R7", "the id a session carries is the one generated for it: every session envelope a server channel emits takes its id from channel.sessionID, which on a server channel is stored only by the constructor from the parameter the accept loop generated (never adopted from a peer's envelope)", 21)
 	R1 := r.Rule("R1", "one channel per dispatch: in the dispatch loop the session context, every stream/done accessor of the select and the Sender handed to each handler function all derive from the loop function's single channel parameter", 8)
 	R2 := r.Rule("R2", "context keys: the session context stores the channel's id, remote node and local node under three distinct keys of an unexported type, and each exported getter loads the key under which a value of its asserted type was stored", 6)
@@ -514,6 +515,7 @@ func canHoldSessionData(t types.Type, s *Sem, d int) bool {
 func c20(r *Report, s *Sem) {
 	p := r.P
 	a := s.anchors()
+	defer r.Import(s, "C04", "R3", "R10", "no envelope is discarded before dispatch: in the receiver every kind is forwarded to its stream by a blocking select without a default arm (a kind dropped when its buffer is full reaches zero handlers)", 5)
 	defer r.Import(s, "C05", "R2", "R9", "a response whose request has given up is an ordinary inbound envelope: the pending entry is removed by a deferred delete on every exit after the insert, so a late response misses the table and reaches the response handlers instead of an abandoned reply slot", 5)
 	R1 := r.Rule("R1", "registration keeps order: each registration method appends the handler at the end of its kind's slice, and the …HandlerFunc variants wrap predicate and function into the adapter unchanged", 8)
 	R2 := r.Rule("R2", "each handle function scans its kind's slice in ascending order; Handle is called only on the true edge of Match of the same element and the same envelope; after a Handle call no path re-enters the loop (error ⇒ wrapped error returned, success ⇒ loop left); falling off the end returns nil", 12)
